@@ -39,3 +39,41 @@ func init() {
 			rulePodLockAtMutators(c, "C04.R7")
 		}})
 }
+
+func init() {
+	register(&propDef{ID: "C10", Title: "Cloud-provider assign/unassign calls are well ordered per IP",
+		Explanation: "Decides, in unbind, the release API and the resync closure: (R1) the unassign exists on the provider path, a failed unassign never proceeds to free/re-key and is returned/retried, no unassign follows a free, node and uid are cleared (reserveIP(key,key)) only after a successful unassign, and with a provider the free is preceded by the unassign unless no node is recorded; (R2) the UID guard of allocateIP ends in an error before any assign; (R3) a failed assign fails allocateIP and the pod is bound only after allocateIP succeeded; (R4) node names and addresses in the requests come from the stored/re-read record (unassign) and from the bind's node (assign). Does not decide whole per-IP call sequences across moves and retries (a state machine over a history).",
+		Assumptions: []string{"CFG paths; the provider is reached only through cloudProviderAssignIP/UnAssignIP"},
+		Run: func(c *Ctx) {
+			c.Rule("C10.R1", "unassign before free; failure stops; node/uid cleared after", 14)
+			ruleUnbindCloudOrder(c, "C10.R1")
+			ruleReleasers(c, "C10.R1", "cloud")
+			c.Rule("C10.R2", "UID guard before assign", 3)
+			ruleUIDGuard(c, "C10.R2")
+			c.Rule("C10.R3", "failed assign fails the bind; bind only after allocateIP", 4)
+			ruleAssignInBind(c, "C10.R3")
+			ruleBindAfterAllocate(c, "C10.R3")
+			c.Rule("C10.R4", "request fields come from the re-read record", 4)
+			ruleReleasers(c, "C10.R4", "fresh")
+		}})
+}
+
+func init() {
+	register(&propDef{ID: "C03", Title: "IPs are released exactly when the release policy says so",
+		Explanation: "Decides: (R1) policy -> effect on every branch of unbindDpPod / unbindNoneDpPod / shouldRelease: PodDelete always releases and never reserves; Never never releases; Immutable releases only through `replicas==0`, `len(all ips of the prefix) > replicas`, `app gone`, `replicas < index+1`, and reserves only through their complements; lookup errors keep the IP; (R2) policy derivation: pool annotation forces Never, ConvertReleasePolicy maps the documented strings and defaults to PodDelete, every declared policy is produced, the PolicyStr table has one entry per declared constant; (R3) resync hands the re-read stored policy to the unbind functions; (R4) delete / finish events are queued and a failed unbind is re-queued; (R5) the Attr given to every IPAM allocator/UpdateAttr call carries a Policy derived from parseReleasePolicy(pod) (through parameters, checked at every caller); (R6) unbind parses the policy from the pod and routes deployment pods to unbindDpPod. Numeric boundaries (>= for >) and quiescent-state equality over all histories are not decided.",
+		Assumptions: []string{"CFG paths; constants identified by type and value"},
+		Run: func(c *Ctx) {
+			c.Rule("C03.R1", "policy -> release/reserve effect on every branch", 12)
+			rulePolicyEffect(c, "C03.R1")
+			c.Rule("C03.R2", "policy derivation / exhaustiveness", 6)
+			rulePolicyDerivation(c, "C03.R2")
+			c.Rule("C03.R3", "resync uses the stored (re-read) policy", 4)
+			ruleReleasers(c, "C03.R3", "fresh")
+			c.Rule("C03.R4", "events reach unbind; failed unbind re-queued", 4)
+			ruleReleaseEventsQueued(c, "C03.R4")
+			c.Rule("C03.R5", "stored policy is the pod's policy", 5)
+			ruleStoredPolicyIsPodPolicy(c, "C03.R5")
+			c.Rule("C03.R6", "unbind derives the policy from the pod", 3)
+			ruleUnbindUsesPodPolicy(c, "C03.R6")
+		}})
+}
